@@ -1,8 +1,53 @@
 //! Verification hook (compiled only with `--cfg quinn_rs_quinn_verif`).
+//!
+//! Component: `bloom` — the real `BloomTokenLog` through the public `TokenLog` trait.
 #![allow(missing_docs, dead_code, unused_imports, unreachable_pub, clippy::all)]
 use super::{Ops, Outs};
+use crate::{BloomTokenLog, Duration, SystemTime, TokenLog, UNIX_EPOCH};
+
+/// bloom ops (times and lifetimes are integer microseconds since `UNIX_EPOCH`):
+///   op 0 must be [0, max_bytes, k_num, lifetime]   `BloomTokenLog::new(max_bytes, k_num)` -> [0]
+///   [1, nonce_hi, nonce_lo, issued, hint]            check_and_insert(hi<<64|lo, issued, lifetime)
+///   [2, nonce_hi, nonce_lo, issued, lifetime, hint]  same with an explicit lifetime (0 allowed)
+///        -> [accepted (1) / TokenReuseError (0), period_1_start, f1_is_bloom, f1_set_len, f2_is_bloom, f2_set_len]
+/// `hint` is ignored here (it carries the false-positive oracle for the model).
+fn bloom(ops: &Ops) -> Outs {
+    let mut log = BloomTokenLog::new(0, 1);
+    let mut lifetime = Duration::from_micros(1);
+    let mut outs = Vec::new();
+    for (i, op) in ops.iter().enumerate() {
+        let o = match op[0] {
+            0 if i == 0 => {
+                log = BloomTokenLog::new(op[1] as usize, op[2] as u32);
+                lifetime = Duration::from_micros(op[3] as u64);
+                vec![0]
+            }
+            1 | 2 => {
+                let nonce = ((op[1] as u128) << 64) | (op[2] as u128);
+                let issued = UNIX_EPOCH + Duration::from_micros(op[3] as u64);
+                let lt = if op[0] == 1 { lifetime } else { Duration::from_micros(op[4] as u64) };
+                let r = log.check_and_insert(nonce, issued, lt).is_ok();
+                let (p1, f) = log.verif_probe();
+                vec![
+                    r as i128,
+                    p1 as i128,
+                    f[0].0 as i128,
+                    f[0].1 as i128,
+                    f[1].0 as i128,
+                    f[1].1 as i128,
+                ]
+            }
+            _ => vec![-1],
+        };
+        outs.push(o);
+    }
+    outs
+}
 
 /// Interpret `ops` for component `comp`; `None` if `comp` is not served by this module.
-pub(crate) fn run(_comp: &str, _ops: &Ops) -> Option<Outs> {
-    None
+pub(crate) fn run(comp: &str, ops: &Ops) -> Option<Outs> {
+    match comp {
+        "bloom" => Some(bloom(ops)),
+        _ => None,
+    }
 }
